@@ -198,6 +198,36 @@ def check(repo: Repo, rep: Report) -> None:
     cases = [(N("Grid", N("MultiDigit", 2, 5), 0, 3), [], (4, 4), "Grid(height=0, width=3) empty value"),
              (N("Grid", N("MultiDigit", 2, 5), 2, 0), [[], []], (4, 4), "Grid(height=2, width=0) value [[], []]")]
     judge("RT-GRID", "Grid zero-extent", cases)
+    # ---- one combinator object, boards of different sizes one after the other (the puzzle codecs are module-level constants) --------
+    try:
+        bad = None
+        n = 0
+        reused = [("Grid(OneOf(Spaces, HexInt))", N("Grid", N("OneOf", N("Spaces", 0, "g"), N("HexInt"))), "grid"),
+                  ("Grid(MultiDigit(3,3))", N("Grid", N("MultiDigit", 3, 3)), "digits"),
+                  ("Rooms", N("Rooms"), "rooms"),
+                  ("ValuedRooms(OneOf(HexInt, Spaces))", N("ValuedRooms", N("OneOf", N("HexInt"), N("Spaces", -1, "g"))), "valued")]
+        for label, comb, kind in reused:
+            for (h, wd) in [(2, 2), (3, 3), (1, 4), (2, 3), (1, 1), (3, 2), (2, 2)]:
+                n += 1
+                if kind == "grid":
+                    value: Any = [[(1 + 15 * ((y * wd + x) % 3)) if (y + x) % 2 else 0 for x in range(wd)] for y in range(h)]
+                elif kind == "digits":
+                    value = [[(y * wd + x) % 3 for x in range(wd)] for y in range(h)]
+                else:
+                    rooms = [[(y, x) for x in range(wd)] for y in range(h)]  # one room per row
+                    value = rooms if kind == "rooms" else (rooms, [(7 * k) % 20 for k in range(h)])
+                msg = w.roundtrip(comb, value, h, wd) if kind in ("grid", "digits") else _rooms_roundtrip(w, comb, value, h, wd, kind == "valued")
+                if msg:
+                    bad = f"one {label} object used for boards 2x2, 3x3, 1x4, 2x3, 1x1, 3x2, 2x2 in this order: at the {h}x{wd} board (use #{n}) {msg}"
+                    break
+            if bad:
+                break
+        if bad:
+            rep.finding("RT-GRID", SER, "Grid", "combinator object re-used across board sizes", bad)
+        else:
+            rep.ok("RT-GRID", f"Grid / Rooms / ValuedRooms objects re-used for boards of different sizes: {n} uses round-trip", points=n)
+    except Undecided as ex:
+        rep.undecide("RT-GRID", f"re-used combinator objects: {ex}")
     # ---- Rooms / ValuedRooms ------------------------------------------------------------------
     from concurrent.futures import ProcessPoolExecutor
 
@@ -225,6 +255,25 @@ def check(repo: Repo, rep: Report) -> None:
         rep.undecide("RT-ROOMS", f"malformed rooms: {ex}")
 
 
+def _rooms_roundtrip(w: SerWorld, comb: Obj, value: Any, h: int, wd: int, valued: bool) -> Optional[str]:
+    env = w.env(h, wd)
+    try:
+        st, r = w.meth(comb, "serialize", env, [value], 0)
+        if st != "ok" or r is None:
+            return f"serialize gives {st} {r!r}"
+        text = r[1]
+        st, d = w.meth(comb, "deserialize", env, text + "~", 0)
+        if st != "ok" or d is None or d[0] != len(text):
+            return f"text {text!r}: deserialize gives {st} {d!r}"
+        if valued:
+            want = {frozenset(map(tuple, room)): v for room, v in zip(value[0], value[1])}
+            got = {frozenset(map(tuple, room)): v for room, v in zip(d[1][0][0], d[1][0][1])}
+            return None if got == want else f"text {text!r}: decoded {d[1][0]!r}"
+        return None if canon_rooms(d[1][0]) == canon_rooms(value) else f"text {text!r}: decoded {d[1][0]!r}"
+    except (TypeError, ValueError, IndexError, KeyError) as ex:
+        return f"malformed result ({type(ex).__name__}: {ex})"
+
+
 def _rooms_job(args) -> Tuple[str, Optional[str], int]:
     root, overrides, h, wd, limit = args
     repo = Repo(root, overrides)
@@ -249,6 +298,10 @@ def _rooms_job(args) -> Tuple[str, Optional[str], int]:
                     return "bad", f"board {h}x{wd} rooms {rs} text {text!r}: deserialize gives {st} {d!r}", n
                 if d[0] != len(text) or canon_rooms(d[1][0]) != canon_rooms(rs):
                     return "bad", f"board {h}x{wd} rooms {rs} text {text!r}: decoded {d[1][0]} consuming {d[0]}/{len(text)}", n
+                # the same text behind other characters (a part of a Tupl never starts at position 0)
+                st, d2 = w.meth(comb, "deserialize", env, "0g" + text + "~", 2)
+                if st != "ok" or d2 is None or d2[0] != len(text) or canon_rooms(d2[1][0]) != canon_rooms(rs):
+                    return "bad", f"board {h}x{wd} rooms {rs}: text {text!r} placed at offset 2 (after '0g') decodes as {st} {d2!r}", n
                 dec = d[1][0]
                 if [sorted(x) for x in dec] != [list(x) for x in dec] or sorted(dec, key=lambda x: x[0]) != dec:
                     return "bad", f"board {h}x{wd}: decoded rooms {dec} are not in canonical (row-major first cell) order", n
@@ -267,6 +320,13 @@ def _rooms_job(args) -> Tuple[str, Optional[str], int]:
                 if d[0] != len(text) or got != want:
                     return "bad", (f"board {h}x{wd}: rooms {rs} with values {vals} come back as {list(zip(drooms, dvals))} "
                                    f"(text {text!r}, consumed {d[0]}/{len(text)}): values are not attached to the same rooms"), n
+                st, d2 = w.meth(vc, "deserialize", env, "0g" + text + "~", 2)
+                got2 = None
+                if st == "ok" and d2 is not None:
+                    got2 = {frozenset(map(tuple, room)): v for room, v in zip(d2[1][0][0], d2[1][0][1])}
+                if st != "ok" or d2 is None or d2[0] != len(text) or got2 != want:
+                    return "bad", (f"board {h}x{wd}: valued rooms {rs} / {vals}: text {text!r} placed at offset 2 (after '0g') decodes as "
+                                   f"{st} {d2!r}; at offset 0 it decodes correctly"), n
     except Undecided as ex:
         return "undecided", f"{h}x{wd}: {ex}", n
     except (TypeError, ValueError, IndexError, KeyError) as ex:
